@@ -380,7 +380,7 @@ def tasks(tier, seed):
             for hx in (False, True):
                 if tier == 'quick' and hx and enc == 'ascii':
                     continue
-                if name == 'maxvar' and (enc, hx) not in (('latin_1', False), ('cp500', True)):
+                if name in ('maxvar', 'wide') and (enc, hx) not in (('latin_1', False), ('cp500', True)):
                     continue
                 for part in range(of):
                     ts.append({'t': 'msg', 'msg': name, 'enc': enc, 'hex': hx, 'part': part, 'of': of, 'tier': tier})
